@@ -1,33 +1,43 @@
-/* C06: util.h constant-time primitives.  Secret: flag, buffer contents, ints.  Public: len. */
+/* C06: util.h constant-time primitives.  Secret: flag, buffer contents, ints.  Public: len.
+ * len is symbolic up to LEN_MAX: every call site of memczero / is_zero_array in src/ passes a
+ * constant <= 162 (grep), so the library's uses are covered; the loops are fully unwound and the
+ * unwinding assertions prove the bound. */
 #include "pre.h"
 #include "src/secp256k1.c"
 #include "post.h"
 #include "ct.h"
-#define LEN_MAX 192   /* every call site of memczero / is_zero_array in src/ uses a constant <= 162 */
+#define LEN_MAX 192
 
-void h_ct_util(void) {
+void h_ct_memczero(void) {
     INPUT(size_t, len);
-    INPUT_ARR(unsigned char, a, LEN_MAX); INPUT_ARR(unsigned char, b, LEN_MAX);
+    INPUT_ARR(unsigned char, mz_a, LEN_MAX); INPUT_ARR(unsigned char, mz_b, LEN_MAX);
     INPUT(int, fa); INPUT(int, fb);
-    INPUT(int, ra); INPUT(int, rb); INPUT(int, xa); INPUT(int, xb);
-    int za, zb;
-    CT_CANARY();
+    CT_CANARY()
     __CPROVER_assume(len <= LEN_MAX);                               /* public, equal in both runs */
     __CPROVER_assume((fa == 0 || fa == 1) && (fb == 0 || fb == 1)); /* documented domain of a flag */
-
-    CT_RUN1(secp256k1_memczero(a, len, fa));
-    CT_RUN2(secp256k1_memczero(b, len, fb));
-    CT_SAME("C06 memczero: branch trace independent of flag and buffer contents");
+    CT2("C06 memczero: branch trace independent of flag and buffer contents",
+        secp256k1_memczero(mz_a, len, fa), secp256k1_memczero(mz_b, len, fb));
     if (fa != fb && len == 162) REACH("memczero runs with different flags, len 162");
+}
 
-    CT_RUN1(za = secp256k1_is_zero_array(a, len));
-    CT_RUN2(zb = secp256k1_is_zero_array(b, len));
-    CT_SAME("C06 is_zero_array: branch trace independent of array contents");
+void h_ct_is_zero_array(void) {
+    INPUT(size_t, len);
+    INPUT_ARR(unsigned char, za_a, LEN_MAX); INPUT_ARR(unsigned char, za_b, LEN_MAX);
+    int za, zb;
+    CT_CANARY()
+    __CPROVER_assume(len <= LEN_MAX);
+    CT2("C06 is_zero_array: branch trace independent of array contents",
+        za = secp256k1_is_zero_array(za_a, len), zb = secp256k1_is_zero_array(za_b, len));
     if (za != zb && len == 64) REACH("is_zero_array runs with different verdicts");
+}
 
+void h_ct_int_cmov(void) {
+    INPUT(int, fa); INPUT(int, fb);
+    INPUT(int, ra); INPUT(int, rb); INPUT(int, xa); INPUT(int, xb);
+    CT_CANARY()
+    __CPROVER_assume((fa == 0 || fa == 1) && (fb == 0 || fb == 1));
     __CPROVER_assume(ra >= 0 && rb >= 0 && xa >= 0 && xb >= 0);     /* documented: non-negative */
-    CT_RUN1(secp256k1_int_cmov(&ra, &xa, fa));
-    CT_RUN2(secp256k1_int_cmov(&rb, &xb, fb));
-    CT_SAME("C06 int_cmov: branch trace independent of flag and values");
-    if (fa != fb) REACH("int_cmov runs with different flags");
+    CT2("C06 int_cmov: branch trace independent of flag and values",
+        secp256k1_int_cmov(&ra, &xa, fa), secp256k1_int_cmov(&rb, &xb, fb));
+    if (fa != fb && ra != rb) REACH("int_cmov runs with different flags");
 }
